@@ -469,6 +469,18 @@ def c07(ctx):
     multi = sum(1 for c, i, m in res if i[0] == 'ok' and any(x[0] == 'ok' and isinstance(x[1], list) and len(x[1]) == 2
                                                               and isinstance(x[1][1], list) and len(x[1][1]) >= 2 for x in i[1]))
     ctx.cov['engines']['tree:keep-going']['cases_with_two_or_more_reports'] = multi
+    # structural problems are still raised in keep-going mode: one-file-system mode over trees with a directory of another filesystem linked in -
+    # empty, with files, hidden files, sub-directories, with a file entry of its own (a listed path that leads to a non-regular foreign object)
+    r2 = ctx.rng('c07xdev')
+
+    def gen_xdev_kg(r):
+        c = gen_keepgoing_case(r2)
+        GT.mutate(r2, c, {p: b'' for p in c.meta['files']}, {m: b'' for m in c.meta['manifests']}, 'xdev-dir')
+        c.allow_xdev = False
+        c.meta['mutations'] = list(c.meta.get('mutations', [])) + ['xdev-dir']
+        return c
+    c01_impl(ctx, 300, 3000, gen_xdev_kg, 'tree:keep-going-xdev',
+             'keep-going verification in one-file-system mode: result differs from the reference (C07: boundary crossings are still raised)')
     # CLI exit status of `gemato verify --keep-going` on a sample
     cli_keep_going(ctx)
 
